@@ -145,15 +145,27 @@ def run(tier, replay=None):
             c = cfgs[o["first_xbad"] - 1]
             v.violation("%s:xgetbv-without-osxsave" % g["entry"], "resolver of %s executes XGETBV with OSXSAVE clear (%d configurations)" % (g["entry"], o["nxbad"]),
                         {"entry": g["entry"], "config": c})
+    # "whatever implementation is selected, observable results are identical": one digest through the public entry points per simulated CPU level
+    from props import c17
+    ha = build_shimmed("h_agree_cpu", "h_agree.c")
+    dig = {}
+    for lvl in ["base", "sse", "avx", "avx2", "avx512", "avx512g2", "avx2gfni"]:
+        f = os.path.join(wd, "digest-%s.json" % lvl)
+        rr = sh([ha, f], env={"VERIF_CPU": lvl}, timeout=300, check=False)
+        if rr.returncode != 0:
+            v.violation("agreement:%s:crash" % lvl, "the public entry points crashed (exit %d) under the simulated %s CPU level" % (rr.returncode, lvl), {"level": lvl}); continue
+        dig[lvl] = json.load(open(f))["digest"]
+    pairs = [("results-agree-across-cpu-levels|%s vs base" % lvl, dig["base"], dig[lvl], {"levels": ["base", lvl]}) for lvl in dig if lvl != "base" and "base" in dig]
+    nagree = c17.equal_pairs(v, pairs, wd, "c16") if pairs else 0
     kernels = sorted(set(g["sym"] for g in groups))
     cov = {"evaluations": len(cfgs) * len(sel), "distinct_nontrivial": len(cfgs) * len(sel) - len(sel), "exhaustive": True,
            "closed_configurations": len(cfgs), "entry_points": len(sel), "distinct_selected_implementations": len(kernels),
            "requirements": {g["sym"]: g["req"] for g in groups}, "model_drift_pairs": drift,
-           "closure_rules": "R1..R13 in spec/Dispatch.tla", "functions_classified": len(funcs),
+           "closure_rules": "R1..R13 in spec/Dispatch.tla", "cross_level_agreement_pairs": nagree, "digest_values_per_level": len(dig.get("base", [])), "functions_classified": len(funcs),
            "rule": "TLC enumerates every dependency-closed assignment of the bits the resolvers examine (spec/Dispatch.tla, rules R1-R13); the repository's own *_multibinary.asm files are re-assembled from the working tree with cpuid/xgetbv "
                    "replaced by calls into the harness; every resolver is run under every configuration and the stored pointer recorded; the requirement set of each selected implementation is computed from its machine code "
                    "(objdump; encoding class, register width, mnemonic; transitive over direct calls); TLC (TraceDispatch.tla) checks Req subseteq Avail for every (configuration, entry point) pair and XGETBV => OSXSAVE; "
-                   "distinct_nontrivial = pairs other than the all-clear configuration",
+                   "distinct_nontrivial = pairs other than the all-clear configuration; agreement: a digest of results obtained through the public entry points (13 checksums x 31 lengths, EC tables+encode+update for 17 lengths x 9 row counts, RAID gen/check, zero-detect, deflate->inflate round trips at 4 levels x 3 wrappers) is computed once per simulated CPU level and every level is compared with the base level by TLC (TraceEqual.tla)",
            "samples": [{"entry": groups[0]["entry"], "selected": groups[0]["sym"], "requires": groups[0]["req"], "n_configs": len(groups[0]["cfgs"]), "example_config": cfgs[groups[0]["cfgs"][0] - 1]}]}
     cleanup(wd)
     return v.finish("exploration", cov, ["closure rules R1-R13 define 'architecturally consistent'", "ISA classifier table (lib/isa_classify.py) maps mnemonic/encoding/width to extensions; unknown mnemonics contribute nothing",
